@@ -110,6 +110,7 @@ func checkC06(c c06Case, o *Obs) error {
 	o.Label("measure:" + c.Measure)
 	o.LabelIf(c.Table, "table")
 	o.LabelIf(len(c.Targets) > 12, "targets>12")
+	o.LabelIf((c.Mode == "d" || c.Mode == "nd") && c.D >= 1e9, "max-dist-huge")
 	o.LabelIf(sharesName(c.Queries, c.Targets), "query-named-like-a-target")
 	o.LabelIf(len(c.Targets[0].Seq) >= 64, "width>=64")
 	lines := splitLines(out.String())
@@ -527,6 +528,10 @@ func genC06(t *rapid.T) c06Case {
 	if c.Measure == "tn93" {
 		// keep D away from occurring tn93 distances so that float rounding cannot flip the filter
 		d = math.Round(d*1e4)/1e4 + 5e-5
+	}
+	if rapid.IntRange(0, 9).Draw(t, "hugeD") == 0 {
+		// "no limit in practice": values beyond any distance, also beyond what fits an integer
+		d = rapid.SampledFrom([]float64{1e9, 1e19, 1e300}).Draw(t, "hugeDValue")
 	}
 	c.D = d
 	c.TLay = genLayout(t, w)
